@@ -118,8 +118,23 @@ class Result:
 def compare(res, lines, impl_obs, metas=None):
     """runs the model on `lines`, records a disagreement for each differing observation."""
     model = run_driver(lines)
+    raw = []
     for k, (l, a, b) in enumerate(zip(lines, impl_obs, model)):
         if a != b:
-            res.disagreements.append({"stream": res.name, "case": k, "input": l, "impl": a, "model": b,
-                                      "meta": (metas[k] if metas else None)})
+            sa, sb = str(a).split(" | "), str(b).split(" | ")
+            segs = [i for i in range(max(len(sa), len(sb))) if (sa[i] if i < len(sa) else None) != (sb[i] if i < len(sb) else None)]
+            raw.append({"stream": res.name, "case": k, "kind": l.split(" ", 1)[0], "segments": segs,
+                        "input": l, "impl": a, "model": b, "meta": (metas[k] if metas else None)})
+    # tier B (DESIGN §2.3): an exact (tier A) disagreement of a case is forgiven when the same case has a
+    # lawful-run line (tier B) that agrees: the implementation only broke ties differently.
+    tierb = {}
+    for k, m in enumerate(metas or []):
+        if isinstance(m, dict) and m.get("tier") == "B":
+            tierb[m["caseid"]] = (impl_obs[k] == model[k])
+    for d in raw:
+        m = d["meta"] if isinstance(d["meta"], dict) else {}
+        if m.get("tier") == "A" and tierb.get(m.get("caseid")) is True:
+            res.hit("tierA_diverged_tierB_ok")
+            continue
+        res.disagreements.append(d)
     return model
